@@ -156,9 +156,11 @@ ParseDec8Expect(s) == IF D!ParseUint64OK(s) THEN Value(D!ParseUint64(s)) ELSE Er
 
 LeftPadHex(s, w) == IF Len(s) >= w THEN SubSeq(s, Len(s) - w + 1, Len(s)) ELSE Rep(48, w - Len(s)) \o s
 LeftPadHexExpect(s, w) == IF w \in 0..1048576 THEN Value(LeftPadHex(s, w)) ELSE AnyX
-(* MustHexPadLeft is a documented Must* helper: only its results on valid hex are specified *)
+(* MustHexPadLeft is a documented Must* helper: it has no error result, so "malformed text is rejected" can only *)
+(* mean its documented panic (class "panics"); widths outside the helper's domain stay open                      *)
 MustHexPadLeftExpect(s, size) ==
-    IF size \in 0..524288 /\ HexOK(LeftPadHex(s, 2 * size)) THEN Value(HexDecode(LeftPadHex(s, 2 * size))) ELSE AnyX
+    IF size \notin 0..524288 THEN AnyX
+    ELSE IF HexOK(LeftPadHex(s, 2 * size)) THEN Value(HexDecode(LeftPadHex(s, 2 * size))) ELSE [class |-> "panics"]
 (* left-pad to 16 hex digits, then decode; longer texts are outside "hex timestamps become 8 bytes" *)
 ParseHexTimestampExpect(s) ==
     IF Len(s) > 16 THEN AnyX
@@ -195,6 +197,7 @@ MaxWork == 21
 Returned(reply) == reply.kind \in {"value", "error"}      \* not panic / hang / abort  (C10)
 
 Conforms(reply, x) ==
+    IF x.class = "panics" THEN reply.kind = "panic" ELSE
     /\ Returned(reply)
     /\ CASE x.class = "value"  -> reply.kind = "value" /\ reply.val = x.val
          [] x.class = "error"  -> reply.kind = "error"
